@@ -310,21 +310,13 @@ impl Machine for SeekMachine<'_> {
             if self.d.mode == "belt" {
                 calls.retain(|c| !(c.dir == b'E' && c.input == self.iv));
             }
-            // every counter block the history needs must have been fed to E, in the order of FIRST need; extra cipher calls
-            // (prefetching, regeneration) are tolerated, and so is serving a block that is needed again (after a seek back)
-            // from memory instead of encrypting it a second time
+            // every counter block the history needs must have been fed to E at some point; order, extra cipher calls
+            // (prefetching, regeneration) and serving a block that is needed again (after a seek back) from memory are the
+            // implementation's business
             let got: Vec<Vec<u8>> = calls.iter().filter(|c| c.dir == b'E').map(|c| c.input.clone()).collect();
             let want: Vec<Vec<u8>> = expect_idx.iter().map(|i| self.counter_block(&c, *i)).collect();
-            let mut first_need: Vec<Vec<u8>> = vec![];
-            let mut first_idx: Vec<u128> = vec![];
-            for (w, i) in want.iter().zip(&expect_idx) {
-                if !first_need.contains(w) {
-                    first_need.push(w.clone());
-                    first_idx.push(*i);
-                }
-            }
-            if let Err(j) = match_subsequence(&got, &first_need) {
-                return fail(format!("counter_block_wrong/{name}"), format!("{} [{}]: the counter block for keystream block {} ({}) was never fed to E in order; E received [{}]", self.d.ty, hs(hist), first_idx[j], short(&first_need[j]), got.iter().take(6).map(|b| short(b)).collect::<Vec<_>>().join(" ")));
+            if let Some(j) = first_missing(&got, &want) {
+                return fail(format!("counter_block_wrong/{name}"), format!("{} [{}]: the counter block for keystream block {} ({}) was never fed to E; E received [{}]", self.d.ty, hs(hist), expect_idx[j], short(&want[j]), got.iter().take(6).map(|b| short(b)).collect::<Vec<_>>().join(" ")));
             }
             // reuse monitor: one counter block, two different keystream positions
             let mut seen: std::collections::HashMap<&[u8], u128> = Default::default();
